@@ -329,14 +329,14 @@ def qres (accept : Bool) (status : Status) (p0 p1 : List Frame) (s0 s1 : Status)
     w0 := w, w1 := w, reqs := reqs, draws := draws, expArg := ea }
 
 /-- the part after the energy rule (tis.py:1237-1324) -/
-def quantisComplete (e0 e1 : Ens) (lam : Int) (maxlen0 maxlen1 : Nat) (sc1L : Bool)
-    (tmp0 tmp1 : List Frame) (scC scD : Script) (reqs : List Req) (ea : Option Rat) :
-    Except Err Result :=
+def quantisCompleteCore (e0 e1 : Ens) (lam : Int) (maxlen0 maxlen1 : Nat) (sc1L : Bool)
+    (tmp0 tmp1 : List Frame) (scC scD : Script) (reqs : List Req) :
+    Except Err (Bool × Status × List Frame × List Frame × Status × Status × Nat × List Req) :=
   match tmp0 with
   | [] => .error .index
   | sp0 :: tmp0tail =>
     if !sc1L then   -- `if start_cond1 != "L"` (dead: start_cond1 was checked to be "L")
-      .ok (qres false .QRS (appendMax [] (maxlen0 - 1) sp0) tmp1 .none .QRS 0 reqs 1 ea)
+      .ok (false, .QRS, appendMax [] (maxlen0 - 1) sp0, tmp1, .none, .QRS, 0, reqs)
     else
       match propagate (maxlen0 - 1) e0.i0 e0.i2 sp0 true scC with
       | none => .error .index
@@ -345,13 +345,13 @@ def quantisComplete (e0 e1 : Ens) (lam : Int) (maxlen0 maxlen1 : Nat) (sc1L : Bo
         -- paste_paths(new_path0, tmp_path0, maxlen=maxlen0)
         let new0 := appendAll (appendAll [] maxlen0 back.reverse) maxlen0 tmp0tail
         let s0 := qstatus0 e0 maxlen0 new0
-        if s0 ≠ .ACC then .ok (qres false s0 new0 tmp1 s0 .none 0 reqs 1 ea)
+        if s0 ≠ .ACC then .ok (false, s0, new0, tmp1, s0, .none, 0, reqs)
         else
           match tmp1.getLast? with
           | none => .error .index
           | some sp1 =>
             if decide (sp1.op < lam) then   -- start_cond1 != "R"
-              .ok (qres false .QLR new0 (appendMax [] (maxlen1 - 1) sp1) .QLR .QLR 0 reqs 1 ea)
+              .ok (false, .QLR, new0, appendMax [] (maxlen1 - 1) sp1, .QLR, .QLR, 0, reqs)
             else
               match propagate (maxlen1 - 1) e1.i0 e1.i2 sp1 false scD with
               | none => .error .index
@@ -360,60 +360,81 @@ def quantisComplete (e0 e1 : Ens) (lam : Int) (maxlen0 maxlen1 : Nat) (sc1L : Bo
                 -- paste_paths(tmp_path1.reverse(None, rev_v=False), new_path1, maxlen=maxlen1)
                 let new1 := appendAll (appendAll [] maxlen1 tmp1.reverse.reverse) maxlen1 forw.tail
                 let s1 := qstatus1 lam maxlen1 new1
-                if s1 ≠ .ACC then .ok (qres false s1 new0 new1 .ACC s1 0 reqs 1 ea)
-                else .ok (qres true .ACC new0 new1 .ACC .ACC 1 reqs 1 ea)
+                if s1 ≠ .ACC then .ok (false, s1, new0, new1, .ACC, s1, 0, reqs)
+                else .ok (true, .ACC, new0, new1, .ACC, .ACC, 1, reqs)
+
+/-- `quantisCompleteCore` packed into a `Result`: one number was drawn, the exponent was `ea` -/
+def quantisComplete (e0 e1 : Ens) (lam : Int) (maxlen0 maxlen1 : Nat) (sc1L : Bool)
+    (tmp0 tmp1 : List Frame) (scC scD : Script) (reqs : List Req) (ea : Option Rat) :
+    Except Err Result :=
+  match quantisCompleteCore e0 e1 lam maxlen0 maxlen1 sc1L tmp0 tmp1 scC scD reqs with
+  | .error x => .error x
+  | .ok (a, st, p0, p1, s0, s1, w, rq) => .ok (qres a st p0 p1 s0 s1 w rq 1 ea)
 
 /-- `deltaV0 * engine0.beta - deltaV1 * engine1.beta` -/
 def expArgOf (beta0 beta1 : Rat) (v0r0 v0r1 v1r1 v1r0 : Int) : Rat :=
   ((v0r0 - v0r1 : Int) : Rat) * beta0 - ((v1r0 - v1r1 : Int) : Rat) * beta1
 
-/-- `quantis_swap_zero(picked, engines)`.  Scripts: `scA` engine0 one step from old[0+][0],
-    `scB` engine1 one step from old[0-][-2], `scC` engine0 backward completion, `scD` engine1
-    forward completion.  `p` = the value of `np.exp(expArg)`, ξ = `rgen.random()`.
-    Quirks mirrored: `maxlen1` is read from ens_set0; engine1's one-step call gets ens_set0;
-    on QEA `[tmp_path1, tmp_path1]` is returned; on QS1 only tmp_path1.status is set. -/
-def quantisSwapZero (e0 e1 : Ens) (old0 old1 : List Frame) (scA scB scC scD : Script)
-    (acceptAll : Bool) (beta0 beta1 : Rat) (xi p : Rat) : Except Err Result :=
-  let maxlen0 := e0.maxlen
-  let maxlen1 := e0.maxlen
+/-- outcome of everything before the energy rule (tis.py:1127-1223); independent of ξ, p, accept_all -/
+inductive QPre
+  | err (e : Err)
+  /-- an early rejection `return False, [p0, p1], status` -/
+  | early (status : Status) (p0 p1 : List Frame) (s0 s1 : Status) (reqs : List Req)
+  /-- both one-step paths crossed λ0: the energy rule is evaluated with exponent `ea` -/
+  | reached (tmp0 tmp1 : List Frame) (reqs : List Req) (ea : Rat) (sc1L : Bool)
+
+def quantisPre (e0 : Ens) (old0 old1 : List Frame) (scA scB : Script) (beta0 beta1 : Rat) : QPre :=
   let lam := e0.i2
   match old1 with
-  | [] => .error .index
+  | [] => .err .index
   | sp0 :: _ =>
     match old0.reverse with
     | _ :: sp1 :: _ =>
       if sp0.vpot.isNone || sp1.vpot.isNone then
-        .ok (qres false .QNE (appendMax [] 2 sp0) (appendMax [] 2 sp1) .QNE .QNE 0 [] 0 none)
+        .early .QNE (appendMax [] 2 sp0) (appendMax [] 2 sp1) .QNE .QNE []
       else
         let sc0L := decide (sp0.op < lam)
         let sc1L := decide (sp1.op < lam)
         if !sc0L || !sc1L then
-          .ok (qres false .QLL (appendMax [] 2 sp0) (appendMax [] 2 sp1) .QLL .QLL 0 [] 0 none)
+          .early .QLL (appendMax [] 2 sp0) (appendMax [] 2 sp1) .QLL .QLL []
         else
           match propagate 2 e0.i0 e0.i2 sp0 false scA with
-          | none => .error .index
+          | none => .err .index
           | some (tmp0, _) =>
             let reqs := [propReq 0 2 e0.i0 e0.i2 sp0 false]
             if !(endIsR lam tmp0) then
-              .ok (qres false .QS0 tmp0 (appendMax [] 2 sp1) .QS0 .QS0 0 reqs 0 none)
+              .early .QS0 tmp0 (appendMax [] 2 sp1) .QS0 .QS0 reqs
             else
+              -- engine1 is handed ens_set0 here (tis.py:1205)
               match propagate 2 e0.i0 e0.i2 sp1 false scB with
-              | none => .error .index
+              | none => .err .index
               | some (tmp1, _) =>
                 let reqs := reqs ++ [propReq 1 2 e0.i0 e0.i2 sp1 false]
                 if !(endIsR lam tmp1) then
-                  .ok (qres false .QS1 tmp0 tmp1 .none .QS1 0 reqs 0 none)
+                  .early .QS1 tmp0 tmp1 .none .QS1 reqs
                 else
                   match sp1.vpot, tmp0.head?.bind (·.vpot), sp0.vpot, tmp1.head?.bind (·.vpot) with
                   | some v0r0, some v0r1, some v1r1, some v1r0 =>
-                    let ea := expArgOf beta0 beta1 v0r0 v0r1 v1r1 v1r0
-                    let pacc : Rat := min 1 p
-                    if acceptAll || decide (xi ≤ pacc) then
-                      quantisComplete e0 e1 lam maxlen0 maxlen1 sc1L tmp0 tmp1 scC scD reqs (some ea)
-                    else
-                      .ok (qres false .QEA tmp1 tmp1 .QEA .QEA 0 reqs 1 (some ea))
-                  | _, _, _, _ => .error .type
-    | _ => .error .index
+                    .reached tmp0 tmp1 reqs (expArgOf beta0 beta1 v0r0 v0r1 v1r1 v1r0) sc1L
+                  | _, _, _, _ => .err .type   -- `{None:.4e}` in the log line
+    | _ => .err .index
+
+/-- `quantis_swap_zero(picked, engines)`.  Scripts: `scA` engine0 one step from old[0+][0],
+    `scB` engine1 one step from old[0-][-2], `scC` engine0 backward completion, `scD` engine1
+    forward completion.  `p` = the value of `np.exp(expArg)`, ξ = `rgen.random()` (drawn also
+    when accept_all).  The rule is `rand <= min(1.0, p)`.
+    Quirks mirrored: `maxlen1` is read from ens_set0; engine1's one-step call gets ens_set0;
+    on QEA `[tmp_path1, tmp_path1]` is returned; on QS1 only tmp_path1.status is set. -/
+def quantisSwapZero (e0 e1 : Ens) (old0 old1 : List Frame) (scA scB scC scD : Script)
+    (acceptAll : Bool) (beta0 beta1 : Rat) (xi p : Rat) : Except Err Result :=
+  match quantisPre e0 old0 old1 scA scB beta0 beta1 with
+  | .err e => .error e
+  | .early status p0 p1 s0 s1 reqs => .ok (qres false status p0 p1 s0 s1 0 reqs 0 none)
+  | .reached tmp0 tmp1 reqs ea sc1L =>
+    if acceptAll || decide (xi ≤ min 1 p) then
+      quantisComplete e0 e1 e0.i2 e0.maxlen e0.maxlen sc1L tmp0 tmp1 scC scD reqs (some ea)
+    else
+      .ok (qres false .QEA tmp1 tmp1 .QEA .QEA 0 reqs 1 (some ea))
 
 /-! ### a deterministic engine (for the swap-twice statement and the ReversibleEngine tie) -/
 
